@@ -412,6 +412,17 @@ static int udict_inline_set(struct udict *udict, const char *name,
         base_type = shorthand->base_type;
     }
 
+    /* calculate header size */
+    size_t header_size = 1;
+    size_t namelen = 0;
+    if (likely(shorthand != NULL)) {
+        if (base_type == UDICT_TYPE_OPAQUE || base_type == UDICT_TYPE_STRING)
+            header_size += 2;
+    } else {
+        namelen = strlen(name);
+        header_size += 2 + namelen + 1;
+    }
+
     /* check if it already exists */
     size_t current_size;
     uint8_t *attr = _udict_inline_get(udict, name, type, &current_size);
@@ -423,18 +434,17 @@ static int udict_inline_set(struct udict *udict, const char *name,
                 *attr_p = attr;
             return UBASE_ERR_NONE;
         }
+        /* make room before deleting, so that a failed allocation does not
+         * lose the previous value */
+        size_t needed_size = inl->size + header_size + attr_size;
+        if (unlikely(needed_size >= umem_size(&inl->umem))) {
+            struct udict_inline_mgr *inline_mgr =
+                udict_inline_mgr_from_udict_mgr(udict->mgr);
+            if (unlikely(!umem_realloc(&inl->umem, needed_size +
+                                                   inline_mgr->extra_size)))
+                return UBASE_ERR_ALLOC;
+        }
         udict_inline_delete(udict, name, type);
-    }
-
-    /* calculate header size */
-    size_t header_size = 1;
-    size_t namelen = 0;
-    if (likely(shorthand != NULL)) {
-        if (base_type == UDICT_TYPE_OPAQUE || base_type == UDICT_TYPE_STRING)
-            header_size += 2;
-    } else {
-        namelen = strlen(name);
-        header_size += 2 + namelen + 1;
     }
 
     /* check total attributes size */
